@@ -154,6 +154,17 @@ def main():
         print("check: cannot build the model executable: %s\n%s" % (e.what, e.log[-3000:]))
         sys.exit(2)
 
+    # ---- 2b. kernel cross-check of the extracted program (vm_compute inside coqc vs OCaml)
+    xc = None
+    if not a.no_coq:
+        try:
+            import xcheck
+            xc = xcheck.run(seed, pid, 32)
+            if xc["mismatches"]:
+                broken.append("kernel cross-check: extracted program and vm_compute disagree: " + "; ".join(xc["detail"])[:600])
+        except B.BuildError as e:
+            broken.append("kernel cross-check could not run: " + e.what + " :: " + e.log.strip()[-300:])
+
     # ---- 3. correspondence
     rng = random.Random(seed)
     if a.replay:
@@ -278,7 +289,7 @@ def main():
     tb = [
         "Coq 8.16.1 kernel incl. vm_compute (no native_compute)",
         "tools/gen_consts.py (regex translator for tables, enums, limits)",
-        "extraction: ExtrOcamlBasic directives only; OCaml 4.13.1; ocaml/driver.ml (conversions and printing, zarith for decimal I/O)",
+        "extraction: ExtrOcamlBasic + ExtrOcamlZBigInt directives and two Extract Constant (Z.gcd, Z.ggcd on zarith), listed in DESIGN.md section 8; OCaml 4.13.1 + zarith; ocaml/driver.ml (conversions, printing, threading of stateful cases); cross-checked on every run against vm_compute inside coqc (coverage.kernel_cross_check)",
         "harness/sbh.cpp, tools/gens/%s.py, tools/check.py; gcc 12 -O1 -ffp-contract=off" % pid,
         "hand-written Gallina models of the C code, tied by this correspondence run",
     ] + list(getattr(gen, "TRUSTED", []))
@@ -307,12 +318,13 @@ def main():
             "outcome_histogram": outcome_hist,
             "known_findings_hit": {k: len(v) for k, v in known_hit.items()},
             "explanation": getattr(gen, "EXPLANATION", ""),
+            "kernel_cross_check": xc,
         },
         "assumptions": list(getattr(gen, "ASSUMPTIONS", [])) + ["axioms (Print Assumptions): " + (", ".join(all_ax) if all_ax else "none")],
         "wall_s": round(wall, 2),
         "violations": len(violations),
     }
-    if not a.replay and not a.no_coq:
+    if not a.replay and not a.no_coq and not os.environ.get("VERIF_NO_EVIDENCE"):
         with open(os.path.join(VERIF, "evidence", pid + ".json"), "w") as f:
             json.dump(ev, f, indent=1)
     print("check %s tier=%s seed=%d: %d cases (%d distinct non-trivial), %d/%d obligations, %d disagreement(s), %d known finding(s) hit, %.1fs" % (
